@@ -17,6 +17,7 @@ func init() {
 			"D3 overlap enumeration — the source range is [old.LowerBound(i)·scale, old.LowerBound(i+1)·scale), the target loop starts at new.Index(lower) and continues while new.LowerBound(out) < upper, the weight sent is count·(min(outHi,inHi) − max(outLo,inLo))/(inHi − inLo) and goes to the target store at the loop's own index. "+
 			"D4 no negative weight — on every path reaching the target AddWithCount the overlap size (numerator of the proportion) is established positive or non-negative by a dominating comparison with 0 (or clamped with max(0,·)); count > 0 and inHi − inLo > 0 are axioms (ForEach yields positive weights; LowerBound is increasing and scale > 0). "+
 			"D5 exact statistics are rescaled by the factor — the exact variant's ChangeMapping returns {inner.ChangeMapping(…, scale), a Copy() of the statistics rescaled exactly once by that same scale} and never writes the receiver's statistics; SummaryStatistics.Rescale scales sum and compensation, orders min/max by the sign of the factor and never touches the count (C10-D1/D3 obligations re-evaluated here). "+
+			"SHARED (obligations of other properties that decide clauses this property states too, re-evaluated here under their home rule ids): C19-D2/D3 (Equals of the mappings, on which the identity shortcut rests). "+
 			"NOT DECIDED: conservation of total weight up to rounding, the combined accuracy bound, rank distance.",
 		"one obligation per ChangeMapping path, per overlap term, per path reaching the weighted add",
 		false, runC17)
@@ -40,6 +41,8 @@ func runC17(c *Ctx) {
 	// exact variant: the statistics of the result are a copy rescaled once by the same factor; Rescale's field table
 	c10Wrappers(c, a, "C17-D5", "ChangeMapping")
 	c10StatObject(c, a, "C17-D5", "Rescale")
+	// the identity shortcut is taken when the mappings are Equal: "carries the requested mapping" rests on Equals
+	c.shared(func() { c19Equals(c, mappingInfos(c, "C17")) }, func(o *Obligation) bool { return true })
 }
 
 func c17Table(c *Ctx, a *sketchAnchors) {
